@@ -10,6 +10,7 @@ var parts = map[string]func(*vk.Ctx){
 	"c01-serialize": c01Serialize,
 	"c01-sign":      c01Sign,
 	"c01-tamper":    c01Tamper,
+	"c01-calls":     c01Calls,
 }
 
 func main() { vk.RunPart(parts) }
